@@ -27,7 +27,9 @@ RULE_ADDED = (
               ' '
               'Round 8: flapping links (2..16 requests in a row, each repaired and failing agai'
               "n at the command's first exchange) and outages of up to 20 failed reconnections;"
-              " follow-ups run with the follow-up shape's own device settings. ")
+              " follow-ups run with the follow-up shape's own device settings. "
+              ' '
+              'Round 9: link failures right after a request that timed out. ')
 RULE = RULE + " " + RULE_ADDED.strip()
 ASSUMPTIONS = [
     "fault kinds are those of the HID transport (write() < 0, read error, time-out) as the "
